@@ -143,7 +143,8 @@ pub fn write_key0(dir: &std::path::Path) {
 /// `mlar repair -l -i in.mla -o out.mla [-k key.der] [--allow-unauthenticated-data]` on `input`.
 pub fn cli_repair(exe: &std::path::Path, dir: &std::path::Path, input: &[u8], encrypted: bool, unauth: bool) -> CliRepair {
     let _ = std::fs::write(dir.join("in.mla"), input);
-    let _ = std::fs::remove_file(dir.join("out.mla"));
+    // the output path already holds a longer file (an earlier repair): it must be replaced, not overwritten in place
+    let _ = std::fs::write(dir.join("out.mla"), vec![0xEEu8; input.len() + 4096]);
     // odd input lengths: the repaired archive is requested on standard output (`-o -`)
     let to_stdout = input.len() % 2 == 1;
     let mut args: Vec<String> = vec!["repair".into(), "-l".into(), "-i".into(), "in.mla".into(), "-o".into(), if to_stdout { "-".into() } else { "out.mla".into() }];
